@@ -27,6 +27,9 @@ type Profile struct {
 	// Bulk: one burst of this many cheap entries, so that a single round (or a
 	// recovered staging bundle) uploads more than 64 tiles in parallel.
 	Bulk int `json:"bulk,omitempty"`
+	// BulkBytes: size of each bulk entry's certificate (0: a few dozen bytes). A
+	// few hundred entries of 48 KiB make a staging bundle of about 20 MiB.
+	BulkBytes int `json:"bulk_bytes,omitempty"`
 	// Yield: the goroutines of the log park before every acquisition of poolMu
 	// and the scheduler decides who takes the lock first (submission against
 	// pool rotation). No admission control in these runs: narrowing the
@@ -142,6 +145,11 @@ func MakeProfile(prop string, seed uint64, tier string) *Profile {
 		p.Bulk = 5400 + r.Intn(1200)
 		p.PoolSize = 0
 		p.Tag += "+bulk"
+		if r.Chance(1, 3) {
+			p.Bulk = 400 + r.Intn(40)
+			p.BulkBytes = 48 * 1024
+			p.Tag += "-large"
+		}
 	}
 	switch prop {
 	case "C03":
